@@ -687,6 +687,8 @@ theorem inv_stepRel {c : Cfg} {s s' : St} {t : Tid} {l : Lock} (h : Inv c s) (hl
     exact inv_move_rel h t _ hl (Or.inr rfl) (by simp [PcOK]) rfl (by intros; simp) (by simp)
   · rename_i n hpc; cases hst
     exact inv_move_rel h t _ hl (Or.inr rfl) (by simp [PcOK]) rfl (by intros; simp) (by simp)
+  · rename_i hpc; cases hst
+    exact inv_move_rel h t _ hl (Or.inr rfl) (by simp [PcOK]) rfl (by intros; simp) (by simp)
 
 /-- `acq`: besides pure moves, the three lock-protected computations that read or change the idle dict at once -/
 theorem inv_stepAcq {c : Cfg} {s s' : St} {t : Tid} {l : Lock} (h : Inv c s) (hl : s.lock.acquire t = some l)
@@ -1077,6 +1079,18 @@ theorem inv_step {c : Cfg} (hg : Good c) {s s' : St} {l : Label} (h : Inv c s) (
     split at hst
     · rename_i hpc; cases hst
       exact inv_move h t _ (Or.inr rfl) (by simp [PcOK]) (by rw [hpc]; rfl) (by intros; simp) (by simp)
+    · rename_i hpc; cases hst
+      exact inv_move h t _ (Or.inr rfl) (by simp [PcOK]) (by rw [hpc]; rfl) (by intros; simp) (by simp)
+    · cases hst
+  | intr t =>
+    simp only [step] at hst
+    split at hst
+    · cases hst
+      refine inv_move h t _ (Or.inr (by split <;> rfl)) (by split <;> simp [PcOK]) ?_ (by intros; split <;> simp)
+        (by split <;> simp)
+      split
+      · rename_i hc; rw [hc]; rfl
+      · rename_i hc; simp only [Bool.not_eq_true] at hc; rw [hc]; rfl
     · cases hst
   | closeCall t =>
     simp only [step] at hst
@@ -1199,7 +1213,7 @@ theorem C32_accepts_sound (m : Nat) (to : Int) (ls : List Label) (h : (ts (Cfg.o
 def Label.tid : Label → Option Tid
   | .tick _ | .die _ => none
   | .acq t | .rel t | .rdClosed t _ | .wrClosed t | .clock t _ | .spawn t _ _ | .spawnFail t | .poll t _ _ | .tclose t _
-  | .connect t _ | .refused t | .raised t | .got t _ | .use t _ _ | .ret t _ _ _ | .done t | .closeCall t | .closeDone t
+  | .connect t _ | .refused t | .raised t | .got t _ | .use t _ _ | .ret t _ _ _ | .done t | .intr t | .closeCall t | .closeDone t
   | .obsCall t | .obsVal t _ => some t
 
 /-- a step only moves the program counter of the label's own thread -/
